@@ -130,7 +130,13 @@ func c04UnitSteps(c *Ctx, r *RuleResult, lexT *types.Named) {
 			}
 		}
 		sort.Slice(steps, func(i, j int) bool { return steps[i].Index < steps[j].Index })
-		if len(steps) == 0 {
+		runeOnly := 0
+		for _, m := range unit {
+			if m["endRunes"] == 1 && m["end"] == 0 {
+				runeOnly++
+			}
+		}
+		if len(steps) == 0 && runeOnly == 0 {
 			continue
 		}
 		// byte reads at the cursor
@@ -154,6 +160,51 @@ func c04UnitSteps(c *Ctx, r *RuleResult, lexT *types.Named) {
 				if isByteVal(prm) && c04ParamIsCursorByte(p, fn, prm, lexT) {
 					reads = append(reads, readT{prm, fn.Blocks[0].Instrs[0]})
 				}
+			}
+		}
+		// the split form of a byte-wise scan: the byte cursor moves in one block and the rune cursor is counted in another,
+		// under a test of the byte — then it must not be counted for a continuation byte (0x80–0xBF)
+		endStoreBlocks := map[*ssa.BasicBlock]bool{}
+		for _, es := range storesToField([]*ssa.Function{fn}, lexT, "end") {
+			endStoreBlocks[es.store.Block()] = true
+		}
+		for b, m := range unit {
+			if !(m["endRunes"] == 1 && m["end"] == 0) || endStoreBlocks[b] {
+				continue
+			}
+			st := firstPos[b]
+			var scr *readT
+			for i := range reads {
+				rd := &reads[i]
+				if !rd.in.Block().Dominates(b) {
+					continue
+				}
+				if scr == nil || scr.in.Block().Dominates(rd.in.Block()) {
+					scr = rd
+				}
+			}
+			if scr == nil {
+				continue // not a scan of the input: R3 decides the unit of the step
+			}
+			set := reachSets(fn, scr.v, scr.in.Block(), ivFull(0xFF))[b]
+			cont := ivset{}
+			for _, iv := range set {
+				lo, hi := iv[0], iv[1]
+				if lo < 0x80 {
+					lo = 0x80
+				}
+				if hi > 0xBF {
+					hi = 0xBF
+				}
+				if lo <= hi {
+					cont = append(cont, [2]int64{lo, hi})
+				}
+			}
+			site := fmt.Sprintf("character counted apart from the byte step at %s in %s", p.Pos(st.Pos()), p.FuncName(fn))
+			if len(cont) > 0 {
+				r.Fail(st.Pos(), p.FuncName(fn), "a continuation byte is counted as a character", "the rune cursor is advanced for byte values "+cont.String()+", which only occur inside a multi-byte character: a character whose encoding contains such a byte is counted twice, and every later offset is too large while line and column stay right")
+			} else {
+				r.OK(site, "never for a byte in 0x80–0xBF: "+set.String())
 			}
 		}
 		headers, bodies := loopsOf(fn)
